@@ -1579,4 +1579,5 @@ def controls(repo):
     out.append(('neg-minutes', text_variant(repo, 'geodepy/angles.py', "            return DMSAngle(-self.degree, -self.minute, -self.second)", "            return DMSAngle(-self.degree, self.minute, -self.second)"), 'value-table'))
     # the number of decimals chosen once for the whole array
     out.append(('places-per-array', text_variant(repo, 'geodepy/angles.py', "    places = 12 + (mag < 512)\n", "    places = 13 if (mag < 512).all() else 12\n"), 'validation-places'))
+    out.append(('vector-threshold-moved', text_variant(repo, 'geodepy/angles.py', '    big = abs(dec) >= 512\n', '    big = abs(dec) > 512\n'), 'dec2hp_v::resolution-threshold'))
     return out
